@@ -21,7 +21,7 @@ META = dict(
     property="C21",
     level="exploration",
     technique="op-list interpreter over a real HTTPChannel with an exact hand-over model (request k is handed over exactly when it is completely delivered and k-1 has finished on a persistent connection), strict parsing of the response stream, per-Deferred firing log; complete enumeration of all event histories up to a depth over fixed 3-request streams + Hypothesis random streams/histories",
-    level_text="All event histories of length <= 6 (quick) / 8 (thorough) over 7 event kinds on two fixed pipelined 3-request streams (and, two events shallower, on a third one whose pipelined 20 kB body crosses the eager-read limit) are enumerated completely; random streams (1..5 requests, GET/HEAD/POST, bodies up to 20 kB to cross the eager-read limit, every segmentation mode) with random histories up to 30 events are sampled. Connection loss is a history event, so it is injected at every event boundary of the enumerated scope. A fair continuation (resume, deliver the rest, finish everything that may finish, then lose the connection) checks that nothing is left unfired or stuck.",
+    level_text="All event histories of length <= 7 (quick) / 8 (thorough) over 7 event kinds on two fixed pipelined 3-request streams (and, two events shallower, on a third one whose pipelined 20 kB body crosses the eager-read limit) are enumerated completely; random streams (1..5 requests, GET/HEAD/POST, bodies up to 20 kB to cross the eager-read limit, every segmentation mode) with random histories up to 30 events are sampled. Connection loss is a history event, so it is injected at every event boundary of the enumerated scope. A fair continuation (resume, deliver the rest, finish everything that may finish, then lose the connection) checks that nothing is left unfired or stuck.",
     level_note="Trusted: the model in this file, the response-stream parser, a lenient StringTransport as the wire (the harness honours the transport's read-pause and stops delivering after loseConnection, as a real transport does). notifyFinish() is only called on a live request (handed over, unfinished, connection up): a Deferred requested after the response finished or after the loss is outside the statement. Liveness is checked only as quiescence under the harness's continuation.",
     design_ref="§5 C21",
     rule="case = (requests, cuts, ops). non-trivial = stream of >= 3 requests, at least one request finished by a later event (not inside its own hand-over) and the connection lost while a handed-over request was unfinished or a notifyFinish Deferred was pending; distinct by the executed event trace.",
@@ -545,13 +545,19 @@ def _hyp_shard(sub, i):
 
 
 def run(ctx):
-    depth = ctx.pick(6, 8)
+    depth = ctx.pick(7, 8)
     args = [(depth - fs.get("shallower", 0), s, [a, b]) for s, fs in enumerate(FIXED_STREAMS) for a in OPS for b in OPS]
     for si, fs in enumerate(FIXED_STREAMS):       # the histories shorter than the shard prefixes
         cuts = fixed_cuts(fs["cuts"], fs["requests"])
         enumerate_run(ctx, [dict(requests=fs["requests"], cuts=cuts, ops=list(o), strict=True)
                             for o in [[]] + [[a] for a in OPS]], run_case)
-    ctx.shards(_enum_shard, args)
+    if ctx.thorough:
+        ctx.shards(_enum_shard, args)
+    else:                                          # ~20 000 cheap cases: forking costs more than it saves
+        for a in args:
+            _enum_shard(ctx, a)
+            if ctx.has_violation():
+                return
     ctx.extra["enumerated_scope"] = f"all event histories of length <= {depth} over {len(OPS)} event kinds on {len(FIXED_STREAMS)} fixed 3-request streams (the eager-read-limit stream 2 events shallower; histories containing an inapplicable event are pruned: they equal a shorter enumerated history)"
     if ctx.has_violation():
         return
